@@ -530,7 +530,9 @@ func PropC20(c *vs.Case, kind string, env *C20Env, drv C20Driver) error {
 				nontrivial = true
 			}
 		}
-		func() {
+		recDone := make(chan struct{})
+		go func() {
+			defer close(recDone)
 			defer func() {
 				if p := recover(); p != nil {
 					panicked = fmt.Sprintf("%v\n%s", p, trimStack(stackNow()))
@@ -538,6 +540,17 @@ func PropC20(c *vs.Case, kind string, env *C20Env, drv C20Driver) error {
 			}()
 			recErr = drv.Reconcile(name)
 		}()
+		select {
+		case <-recDone:
+		case <-time.After(30 * time.Second):
+			// Reconcile runs on metacontroller's single reconcile worker: one that never returns means the old
+			// instance is never stopped and every later controller event is stuck behind it
+			if g := getGate(); g != nil {
+				close(g)
+				setGate(nil)
+			}
+			return vs.Violf("C20/reconcile-wedged", "%s: Reconcile did not return within 30 s (stopping the old instance hangs)", what)
+		}
 		log = append(log, fmt.Sprintf("%s -> reconcile err=%v", what, recErr))
 
 		if panicked != "" {
